@@ -149,6 +149,12 @@ class Evaluator:
             return res
         if isinstance(e, ast.Subscript):
             base = self.ev(e.value)
+            if isinstance(base, Abstract) and isinstance(e.slice, ast.Slice) and e.slice.step is None:
+                lo = self.ev(e.slice.lower) if e.slice.lower is not None else None
+                hi = self.ev(e.slice.upper) if e.slice.upper is not None else None
+                if (lo is None or isinstance(lo, int)) and (hi is None or isinstance(hi, int)):
+                    return Abstract(base.tag[lo:hi], base.letter_ops)
+                return UNKNOWN
             idx = self.ev(e.slice)
             if isinstance(base, Abstract) and isinstance(idx, int):
                 # entries are ordered: addrange first, then patch/removerange
